@@ -87,14 +87,25 @@ def c11_7(facts, res, e, rule="C11-7"):
                 target = n
     if target is None:
         raise BrokenCheck("C11-7: no conditional guards XmlAttribute::new_from_declaration in XmlElement::attributes")
-    quant = None
-    for m in walk(target["cond"]):
-        if m.get("k") == "MethodCall" and m["m"] in ("any", "all") and m.get("args") and m["args"][0].get("k") == "Closure":
-            quant = m
+    lets = {m["pat"]["lid"]: m["init"] for m in walk(e["body"])
+            if m.get("s") == "Let" and m.get("pat", {}).get("p") == "Bind" and "init" in m}
+
+    def find_quant(expr, depth=0):
+        """-> (quantifier node, number of `!` around it), looking through boolean locals (`let present = items.iter().any(..)`)"""
+        for m in walk(expr):
+            if m.get("k") == "MethodCall" and m["m"] in ("any", "all") and m.get("args") and m["args"][0].get("k") == "Closure":
+                return m, _neg_depth(expr, m)
+        if depth < 3:
+            for m in walk(expr):
+                if m.get("k") == "Path" and m.get("res") == "Local" and str(m.get("ty")) == "bool" and m.get("lid") in lets:
+                    q, d = find_quant(lets[m["lid"]], depth + 1)
+                    if q is not None:
+                        return q, d + _neg_depth(expr, m)
+        return None, 0
+    quant, negs = find_quant(target["cond"])
     if quant is None:
         raise BrokenCheck("C11-7: the written-attribute test is not an any()/all() over the written attributes; shape not recognised")
     st["instances"] += 1
-    negs = _neg_depth(target["cond"], quant)
     clo = quant["args"][0]
     plid = clo["params"][0].get("lid") if clo.get("params") else None
     kind, x = _name_equality(clo["body"], plid)
